@@ -348,6 +348,10 @@ func combinePoints(points *encoding.Uint64Map, nss *Namespaces, goroutines int, 
 				panic(fmt.Sprintf("Unexpected tag: %d", t.Tag))
 			}
 		}
+		// A path can pass through a point, and a relation can list it, more
+		// than once: record each referrer once.
+		references[g].Paths = uniqueReferences(references[g].Paths)
+		references[g].Relations = uniqueReferences(references[g].Relations)
 		if point != nil {
 			if len(references[g].Paths) == 1 && len(references[g].Relations) == 0 {
 				atomic.AddUint64(&common, 1)
@@ -372,6 +376,18 @@ func combinePoints(points *encoding.Uint64Map, nss *Namespaces, goroutines int, 
 	}
 	log.Printf("combinePoints: noPoint: %d orphan: %d common: %d combines: %d map tags: %d", noPoint, orphan, common, combines, totalTags)
 	return nil
+}
+
+// uniqueReferences sorts rs and removes duplicates, in place.
+func uniqueReferences(rs References) References {
+	sort.Sort(rs)
+	unique := rs[0:0]
+	for i, r := range rs {
+		if i == 0 || r != rs[i-1] {
+			unique = append(unique, r)
+		}
+	}
+	return unique
 }
 
 func writePoints(o *Options, points FeatureBlocks, nt *NamespaceTable, summary *Summary, offset encoding.Offset, w io.WriterAt) (encoding.Offset, error) {
